@@ -113,12 +113,14 @@ impl Prop for C22 {
                     }
                 }
                 if services && rng.chance(1, 8) {
-                    match rng.below(3) {
+                    match rng.below(4) {
                         0 => {
                             let k = *rng.pick(&[0u64, 1, 2, 3, 5, 40000]);
                             let l = *rng.pick(&[0u64, 1, 3, 6, 7, 20, 100000]);
-                            out.push(format!("modify {} {}", k, l));
+                            let i = *rng.pick(&[100_000u64, 100_000, 50_000, 200_000, 1_000, 400_000]);
+                            out.push(format!("modify {} {} {}", k, l, i));
                         }
+                        3 => out.push(format!("setinterval {}", *rng.pick(&[100_000u64, 50_000, 200_000, 1_000, 400_000, 25_000]))),
                         1 => out.push(format!("enable {}", b(rng.chance(1, 2)))),
                         _ => out.push("touch".to_string()),
                     }
@@ -235,7 +237,8 @@ impl Runner for R {
                 }
                 let req_queued = !w.subs.publish_request_ids().is_empty();
                 let state_before = w.subs.get(1).map(|s| s.verif_state());
-                let now = w.time_for_tick(e, INTERVAL_MS);
+                let cur = w.subs.get(1).map(|s| s.publishing_interval()).unwrap_or(INTERVAL_MS);
+                let now = w.time_for_tick(e, cur);
                 w.tick(fx, &now);
                 let resps = w.take_responses();
                 let line = format!("ok {}", w.show_single(&resps));
@@ -302,7 +305,8 @@ impl Runner for R {
                 let w = self.w.as_mut().unwrap();
                 // (exactly one queued notification: the status change is then the next one to go out)
                 let had_closed_pending = w.subs.get(1).map(|s| s.verif_state() == 0 && s.verif_notifications_len() == 1).unwrap_or(false);
-                let now = w.time_for_tick(false, INTERVAL_MS);
+                let cur = w.subs.get(1).map(|s| s.publishing_interval()).unwrap_or(INTERVAL_MS);
+                let now = w.time_for_tick(false, cur);
                 let res = w.publish(fx, &now, rid);
                 let resps = w.take_responses();
                 let line = format!("ok res={} {}", if res.is_ok() { "ok" } else { "toomany" }, w.show_single(&resps));
@@ -328,7 +332,7 @@ impl Runner for R {
                 }
                 (line, v)
             }
-            [op @ ("modify" | "enable"), ..] => {
+            [op @ ("modify" | "enable" | "setinterval"), ..] => {
                 // the REAL ModifySubscription / SetPublishingMode services: the subscription is moved
                 // into a session for the call and back afterwards
                 use opcua::server::prelude::*;
@@ -340,13 +344,21 @@ impl Runner for R {
                 let session = std::sync::Arc::new(opcua::sync::RwLock::new(opcua::server::session::Session::new(fx.server_state.clone())));
                 hooks::session_insert_subscription(&mut session.write(), 1, sub);
                 let header = RequestHeader::new(&NodeId::null(), &DateTime::now(), 1);
-                let good = if *op == "modify" {
+                let good = if *op == "modify" || *op == "setinterval" {
+                    // `setinterval i` = ModifySubscription with the current counts and a new interval
+                    let (k, l, i): (u32, u32, f64) = if *op == "modify" {
+                        (toks[1].parse().unwrap(), toks[2].parse().unwrap(), toks[3].parse().unwrap())
+                    } else {
+                        let sub = session.read();
+                        let p = hooks::session_subscription_params(&sub, 1).unwrap();
+                        (p.0, p.1, toks[1].parse().unwrap())
+                    };
                     let req = ModifySubscriptionRequest {
                         request_header: header,
                         subscription_id: 1,
-                        requested_publishing_interval: INTERVAL_MS,
-                        requested_lifetime_count: toks[2].parse().unwrap(),
-                        requested_max_keep_alive_count: toks[1].parse().unwrap(),
+                        requested_publishing_interval: i,
+                        requested_lifetime_count: l,
+                        requested_max_keep_alive_count: k,
                         max_notifications_per_publish: 0,
                         priority: 0,
                     };
